@@ -14,6 +14,11 @@ import (
 	"golang.org/x/tools/go/ssa"
 )
 
+type crcApp struct {
+	bytes []*Term
+	val   *Term
+}
+
 type pathEnd struct {
 	kind string // "done" "infeasible" "violation" "blocked" "unwind" "exit"
 	msg  string
@@ -153,6 +158,8 @@ type Engine struct {
 	knownHit    map[string]*Violation
 	timeNow     *Term
 	nowSeq      int
+	crcMemo     map[string]*Term
+	crcApps     []crcApp
 	bitsSeq     int
 	model       *Model
 	pathVars    []*Term
@@ -223,6 +230,8 @@ func (e *Engine) resetPath(prefix []decision) {
 	e.timeNow = nil
 	e.nowSeq, e.crcSeq, e.rndSeq, e.bitsSeq = 0, 0, 0, 0
 	e.pathVars = e.pathVars[:0]
+	e.crcMemo = nil
+	e.crcApps = nil
 }
 
 // WorkPool is the shared list of pending path prefixes of one harness.
@@ -831,6 +840,9 @@ func (e *Engine) concretize(t *Term, limit int, what string) uint64 {
 		panic(pathEnd{kind: "unwind", msg: fmt.Sprintf("concretize %s: more than %d values", what, limit)})
 	}
 	sort.Slice(vals, func(i, j int) bool { return vals[i] < vals[j] })
+	if e.debug && len(vals) > 8 {
+		fmt.Fprintf(os.Stderr, "[%s] concretize %s: %d values at %s\n", e.harness, what, len(vals), e.where())
+	}
 	base := append([]decision{}, e.trail...)
 	for k := len(vals) - 1; k >= 1; k-- {
 		e.pool.push(append(append([]decision{}, base...), decision{int(vals[k]), true}), nil)
@@ -1066,13 +1078,13 @@ func (e *Engine) execInstr(fr *Frame, ins ssa.Instruction) {
 		e.objSeq++
 		fr.regs[x] = &MapObj{keyT: mt.Key(), elemT: mt.Elem(), id: e.objSeq}
 	case *ssa.MakeChan:
-		n := e.concreteInt(e.get(fr, x.Size), "chan size")
+		n := e.concreteInt(e.idx64(e.get(fr, x.Size), x.Size.Type()), "chan size")
 		e.objSeq++
 		fr.regs[x] = &ChanObj{cap: n, elemT: x.Type().Underlying().(*types.Chan).Elem(), id: e.objSeq}
 	case *ssa.MakeSlice:
 		st := x.Type().Underlying().(*types.Slice)
-		ln := e.concreteLen(e.get(fr, x.Len), "make len")
-		cp := e.concreteLen(e.get(fr, x.Cap), "make cap")
+		ln := e.concreteLen(e.idx64(e.get(fr, x.Len), x.Len.Type()), "make len")
+		cp := e.concreteLen(e.idx64(e.get(fr, x.Cap), x.Cap.Type()), "make cap")
 		if cp < ln {
 			e.vc(e.ts.True, "makeslice: cap out of range")
 		}
@@ -1164,8 +1176,7 @@ func (e *Engine) concreteLen(v Value, what string) int {
 	t := v.(*Term)
 	if !t.IsConst() {
 		// negative or huge lengths are panics
-		lim := e.ts.BVConst(t.sort.W, 1<<16)
-		e.vc(e.ts.Not(e.ts.BvCmp(OpBvUlt, t, lim)), what+": length out of range (negative or > 65536)")
+		e.vc(e.ts.BvCmp(OpBvSlt, t, e.ts.BVConst(t.sort.W, 0)), what+": negative length")
 		return int(e.concretize(t, 4096, what))
 	}
 	n := sext64(t.val, t.sort.W)
